@@ -26,6 +26,7 @@ def units(tier):
             continue
         for std in ("f2003", "f2008"):
             us.append(dict(h="big", fam=fam, n=24, std=std, cost=4))
+    us.append(dict(h="big", fam="paren", n=120, std="f2003", cost=4))      # very deep nesting
     base = PG.base_programs()
     rot = 0
     for p in base:
@@ -92,7 +93,10 @@ def run_parse(ctx, src, std, ic):
         return str(t)
     r = C.outcome(go)
     ctx.observe("outcome", r[0])
-    if r[0] not in ALLOWED:
+    if r[0] == "RecursionError":
+        # where the interpreter's limit is hit is not a property of the input: no call site in the message
+        ctx.fail("parse ends in RecursionError instead of a tree or FortranSyntaxError")
+    elif r[0] not in ALLOWED:
         ctx.fail("parse ends in %s instead of a tree or FortranSyntaxError [%s]" % (r[0], api.text(C.site(r[2]))))
     else:
         ctx.check(True, "outcome is a tree or FortranSyntaxError")
